@@ -1,4 +1,5 @@
 import GwcsModel.Builders
+import GwcsProofs.C20b
 import Mathlib.Tactic.Ring
 import Mathlib.Tactic.Linarith
 import Mathlib.Analysis.SpecialFunctions.Trigonometric.Basic
